@@ -13,7 +13,7 @@ RULE = ('abstract statement lists (bindings with literal / @reference / %macro v
         'Negative: scoped names with inner whitespace, empty components or misplaced separators raise SyntaxError and bind nothing. '
         'distinct = (statement-kind sequence, layout feature set)')
 TIERS = {
-    'quick': {'workers': 8, 'cases': 500, 'timeout': 600},
+    'quick': {'workers': 8, 'cases': 1000, 'timeout': 600},
     'thorough': {'workers': 16, 'cases': 15000, 'timeout': 3000},
 }
 LAYOUTS = ['blank-lines', 'comment-line', 'trailing-comment', 'block', 'block-header-comment', 'block-inner-blank', 'block-inner-comment', 'block-at-eof-no-newline',
